@@ -2,6 +2,14 @@
 """Writes the needs_to_manifest summaries into seeded/*/meta.json and prints the markdown table for DESIGN.md §7.1."""
 import glob, json, os
 NEEDS = {
+ "C16-3": "float split_bits shortcut off by one: round/floor/fract/to_int, `{:.N}` and base-2 add/sub panic (slice index) when the split position falls in the word just above the significand (significands of 64k-2..64k bits)",
+ "C16-4": "ln fast path ln(B^e) = e*ln_base() recurses into ln_base() for bases other than 2, 10 and powers of two: every exp / powf / ln(B^e) in base 3, 5, 7, ... overflows the stack",
+ "C17-3": "shrink_to_fit threshold composed from the wrong policy function: buffers stay up to ~1.4 len + 6 words after by-value operations whose result is 10-20 % shorter (compactness bound broken, values right)",
+ "C17-4": "two cooperating edits (push capacity check demoted to debug_assert, set_bit reserves one word too few): set_bit at word index == buffer capacity writes past the allocation in release builds, assertion in debug",
+ "C18-5": "is_simpler_than compares numerators with their sign: wrong for equal denominators with a negative numerator; simplest_from_f32 of large negative floats picks the wrong end",
+ "C20-3": "float macros' const path emits `<literal> as _`: significands in [2^31, 2^32) wrap negative and sign-extend (value ~2^128, precision 128/38)",
+ "C20-4": "static_rbig! of a strict literal whose parts share an odd factor: only powers of two removed, non-canonical RBig (6/9 stays 6/9)",
+
  "C01-3": "`&a - b` on UBig with both operands >= 3 words, the same word count and a < b: wrapped value instead of the underflow panic (one ownership form only)",
  "C01-4": "one operand above 1024 words times an operand of 3..24 words (chunked schoolbook path): wrong product in release, debug_assert in debug",
  "C02-3": "schoolbook division step whose running remainder's top word equals the divisor's top word while the true quotient word is 2^W - 2 (divisor >= 3 words)",
